@@ -17,6 +17,27 @@ def main():
     from loki.tools.util import CaseInsensitiveDict, CaseInsensitiveDefaultDict
     from loki import SymbolTable, SymbolAttributes, BasicType
     cls, meth, key = inp['class'], inp['method'], inp['key']
+    if meth in ('lookup', '_lookup_formatted_name'):
+        # chain: this table -> parent (possibly empty) -> grand-parent (declares the name or not)
+        key = key or 'x'
+        kf = fold(cls, key)
+        outer = SymbolTable()
+        middle = SymbolTable(parent=outer) if inp.get('has_parent') else None
+        inner = SymbolTable(parent=middle)
+        if inp.get('ancestor_declares') and middle is not None:
+            outer[kf] = SymbolAttributes(BasicType.INTEGER, tag=2)
+            if not inp.get('parent_empty'):
+                middle['zz_other'] = SymbolAttributes(BasicType.REAL, tag=9)
+        elif middle is not None and not inp.get('parent_empty'):
+            middle['zz_other'] = SymbolAttributes(BasicType.REAL, tag=9)
+        if inp.get('here'):
+            inner[kf] = SymbolAttributes(BasicType.INTEGER, tag=1)
+        rec = bool(inp.get('recursive'))
+        got = inner.lookup(key, recursive=rec) if meth == 'lookup' else inner._lookup_formatted_name(kf, rec)
+        exp = 1 if inp.get('here') else (2 if (rec and inp.get('ancestor_declares') and middle is not None) else None)
+        obs = None if got is None else got.tag
+        print(json.dumps({'reproduced': obs != exp, 'observed': obs, 'expected': exp}))
+        return
     is_st = cls == 'SymbolTable'
     mk = {'CaseInsensitiveDict': CaseInsensitiveDict, 'CaseInsensitiveDefaultDict': lambda *a: CaseInsensitiveDefaultDict(None, *a),
           'SymbolTable': SymbolTable}[cls]
